@@ -221,7 +221,7 @@ def plan(tier, seed):
         for i in range(0, len(subs), 6):
             P.append({'kind': 'e3', 'base': 'hip', 'variant': 'plain', 'K': KB, 'subsets': subs[i:i + 6], 'assignments': [{}, alt], 'cpu_count': 4})
     ilv_specs = [({'K': 2, 'n_outputs': 3, 'value_width': {'1': 40}}, 3)] if tier == 'quick' else \
-        [({'K': 2, 'n_outputs': 3, 'value_width': {'1': 40}}, 4), ({'K': 2, 'n_outputs': 400, 'value_width': {'0': 30}}, 3),
+        [({'K': 2, 'n_outputs': 3, 'value_width': {'1': 40}}, 6), ({'K': 2, 'n_outputs': 400, 'value_width': {'0': 30}}, 4),
          ({'K': 3, 'n_outputs': 3, 'value_width': {'2': 40}}, 2)]
     for spec, bound in ilv_specs:
         tagr = runner.fork_exec(lambda _: MC.ilv_roots(spec, bound), None, timeout=600)
@@ -240,7 +240,7 @@ def run(tier, seed, budget=None):
               'one label absent} x K scripted iterations (quick 3, thorough 4) x ALL 2^K subsets of out-of-range iterations x ALL assignments to '
               '<=W workers (quick 2, thorough 3); every surviving row re-simulated through the real client and compared token by token in header '
               'order; statistics recomputed from the rows; E4: all interleavings of two (thorough: three) concurrent appends with rows of '
-              'different lengths (thorough: one > 8 KiB) up to 3 (4) preemptions; long runs: K=8 (12) iterations with the pool seeing 1 CPU (environment answer), '
+              'different lengths (thorough: one > 8 KiB, up to 4) up to 3 (6) preemptions; long runs: K=8 (12) iterations with the pool seeing 1 CPU (environment answer), '
               'at most 1 (2) failing iterations, assignments of whatever work items the driver hands to map(); K=33 (thorough also 64) with every position of one failing iteration. Non-trivial = at least one failing iteration and more than '
               'one worker; distinct by (base, outputs, K, failing subset, assignment)'),
         assumptions=['samples are scripted environment answers (distinct in-range value per iteration ordinal; one out-of-range value for failing iterations)',
